@@ -196,9 +196,13 @@ def load_known_findings() -> List[Dict[str, Any]]:
 
 def match_known(v: Dict[str, Any], known: List[Dict[str, Any]]) -> Optional[Dict[str, Any]]:
     for k in known:
-        if k["property"] != v.get("property"):
+        # "property" names the property the finding was filed under; "properties"
+        # (optional) lists every property through whose API the same call-site
+        # failure can surface (e.g. a solver crash seen via solve(), repair(), the CLI)
+        props = k.get("properties") or [k["property"]]
+        if v.get("property") not in props:
             continue
-        if "clause" in k and k["clause"] != v.get("clause"):
+        if "clause" in k and "properties" not in k and k["clause"] != v.get("clause"):
             continue
         sig = v.get("signature") or {}
         ks = k.get("signature") or {}
@@ -385,7 +389,7 @@ def run_check(prop: str, tier: str, engine_name, profile: Optional[Dict[str, Any
     exit_code = 0
     out_lines: List[str] = []
     for kid, e in sorted(known_hits.items()):
-        out_lines.append(f"KNOWN-FINDING: property={e['finding']['property']} {kid}: {e['finding']['what']} (seen {e['count']}x in this run)")
+        out_lines.append(f"KNOWN-FINDING: property={prop} {kid}: {e['finding']['what']} (seen {e['count']}x in this run)")
 
     # distinct new violations -> minimise a few and write replay files
     seen_keys = set()
